@@ -416,6 +416,13 @@ def c06_3(ctx: Ctx) -> RuleResult:
                 srcs.add(x[2])
             if x[0] == "attr" and x[2] == "weights":
                 srcs.add("config." + ".".join(_names(x)))
+    # ... wherever the comparisons are written (the helper may dispatch to private pieces)
+    for _g, y in flag_cmps:
+        for x in subterms(y):
+            if x[0] == "param":
+                srcs.add(x[2])
+            if x[0] == "attr" and x[2] == "weights":
+                srcs.add("config." + ".".join(_names(x)))
     ok = any(s.endswith("realizations.weights") for s in srcs) and "objective_weights" in srcs and "constraint_weights" in srcs
     res.add(f, f.node, "flags come from config.realizations.weights, or from the objective / constraint weight matrices when supplied", ok,
             "" if ok else f"sources are {sorted(srcs)}", construct=f"{f.name}: weight sources")
